@@ -5,15 +5,18 @@ import "verif/internal/eng"
 func init() {
 	register(&Property{
 		ID: "C26",
-		Explanation: "Decides, for every crash point: (replace-order) all snapshot-removal sites of the program (RemoveUnpacked/ParallelRemove with WriteableSnapshotFile) are enumerated; no removal can be followed by data.SaveSnapshot in the same function (remove-then-save would open a window without any snapshot); each site is either a replacement — reachable only through the success edge of SaveSnapshot and removing sn.ID() of the replaced snapshot —, the delete-empty case behind filteredTree.IsNull() on which nothing is saved, or one of two named exceptions (forget; removal of an unreadable snapshot file); (original-set) before the new snapshot is saved, sn.Original is assigned sn.ID() or was already set; (snapshot-after-upload) the rewritten tree is flushed before the snapshot is saved. Not decided: that the tree is kept unless a filter changed it (data-dependent).",
+		Explanation: "Decides, for every crash point: (replace-order) all snapshot-removal sites of the program (RemoveUnpacked/ParallelRemove with WriteableSnapshotFile) are enumerated; no removal can be followed by data.SaveSnapshot in the same function (remove-then-save would open a window without any snapshot); each site is either a replacement — reachable only through the success edge of SaveSnapshot and removing sn.ID() of the replaced snapshot —, the delete-empty case behind filteredTree.IsNull() on which nothing is saved, or one of two named exceptions (forget; removal of an unreadable snapshot file); (original-set) before the new snapshot is saved, sn.Original is assigned sn.ID() or was already set; (snapshot-after-upload) the rewritten tree is flushed before the snapshot is saved; (unreadable-removal-needs-named-id) the one removal without a saved successor — an unreadable snapshot file in repair snapshots — happens only with --forget, for an id the user named on the command line, outside a dry run (added after a seeded change that applied --forget to every snapshot whose load failed). Not decided: that the tree is kept unless a filter changed it (data-dependent).",
 		Assumptions: commonAssumptions,
 		Technique:   "static analysis: enumeration of all snapshot-removal sites + CFG edge cuts against SaveSnapshot (go/ssa)",
 		AllConfigs:  true,
 		Run: func(c *eng.Ctx) {
 			ruleReplaceOrder(c)
 			ruleSnapshotAfterUpload(c)
+			ruleUnreadableSnapshotRemoval(c)
 		},
 		Controls: []Control{
+			{Name: "unreadable-snapshot-removed-without-forget", File: "cmd/restic/cmd_repair_snapshots.go",
+				Old: "	if opts.Forget && slices.Index(args, id) >= 0 {", New: "	if opts.Forget || slices.Index(args, id) >= 0 {", Rule: "unreadable-removal-needs-named-id"},
 			{Name: "tag-removes-before-saving", File: "cmd/restic/cmd_tag.go",
 				Old: "		// Save the new snapshot.\n		id, err := data.SaveSnapshot(ctx, repo, sn)\n		if err != nil {\n			return false, err\n		}\n\n		debug.Log(\"old snapshot %v saved as a new snapshot %v\", sn.ID(), id)\n\n		// Remove the old snapshot.\n		if err = repo.RemoveUnpacked(ctx, restic.WriteableSnapshotFile, *sn.ID()); err != nil {\n			return false, err\n		}\n",
 				New: "		// Remove the old snapshot.\n		if err := repo.RemoveUnpacked(ctx, restic.WriteableSnapshotFile, *sn.ID()); err != nil {\n			return false, err\n		}\n\n		// Save the new snapshot.\n		id, err := data.SaveSnapshot(ctx, repo, sn)\n		if err != nil {\n			return false, err\n		}\n", Rule: "replace-order"},
